@@ -15,18 +15,25 @@
       `_listen` (`lListen`); a read error / end of stream (`xLoss`);
     * **print thread** — one pass of `_sendnext` once `clear` (`pSendnext`): with the empty start-up
       job this is the end-of-job branch, which lowers `printing`, keeps `clear` down and sends the
-      trailing `M110` (repaired code: the reset is awaited like any command);
+      trailing `M110` (repaired code: the reset is awaited like any command); without line numbers
+      (`_send_line_numbers = False`, set by a `Grbl` greeting) no `M110` is sent, neither by `startprint`
+      nor at the end of the job, and the end-of-job branch raises `clear`;
     * **sender thread** — pops the priority queue and writes to the port (`sSend`; it is stopped
       while the print thread runs);
     * **device** — consumes one received command and answers with status lines followed by exactly
       one terminal reply, `ok…` or `error…|alarm…|!!…` (`dProcess`), after any delay; it may also push,
       at any time, a line that is not the terminal reply of any command but sets the writer's flags:
       a surplus `ok` (e.g. the `ok` Marlin sends after an `Error:` line) or an unsolicited
-      `error…|alarm…|!!…` line (e.g. Grbl's `ALARM:1` after the move was acknowledged) (`dPush`).
+      `error…|alarm…|!!…` line (e.g. Grbl's `ALARM:1` after the move was acknowledged) (`dPush`); and it
+      may emit the greeting `Grbl …` (`dGreet`; a Grbl controller does so when the port is opened): read
+      by `_listen_until_online` it switches line numbering off and brings printcore online - `connect()`
+      then waits for the `ok` of the probe that is still unanswered instead of the `ok` of an `M110` -,
+      read by `_listen` it only raises `clear`.
 
     Commands carry ghost identities (`probe`, `reset`, `stmt k` = the k-th statement handed to
     `write`); the model never inspects or alters a payload.  Ghost fields (`heard`, `devBad`,
-    `backlog`, `probes`, `discRaised`, `surplusHit`, `anyXbad`, `dueErr`) are written, never read, by the transitions. -/
+    `backlog`, `probes`, `discRaised`, `surplusHit`, `anyXbad`, `dueErr`) are written, never read, by the transitions
+    (`lineNumbers` is not a ghost: it is `printcore._send_line_numbers`). -/
 namespace GscribModel.DirectWrite
 
 inductive Cmd where
@@ -42,6 +49,7 @@ inductive Reply where
   | bad (c : Cmd)         -- terminal: error reply
   | xok                   -- surplus `ok…`: acknowledges nothing, but sets the ack event / `clear`
   | xbad                  -- unsolicited `error…|alarm…|!!…` line: not the reply to any command
+  | greet                 -- greeting `Grbl …`: not a reply; no line numbers + online, or (already online) raises `clear`
 deriving Repr, DecidableEq
 
 def Reply.terminal : Reply → Bool
@@ -86,6 +94,7 @@ structure St where
                                       --   awaited a reset or a write() had cleared the flag and not yet seen its own reply
   anyXbad  : Bool := false            -- ghost: an unsolicited error line has been read
   dueErr   : Bool := false            -- ghost: an error line has been read and not yet raised to the caller
+  lineNumbers : Bool := true          -- printcore._send_line_numbers (lowered by a `Grbl` greeting read before online)
 deriving Repr, DecidableEq
 
 inductive Act where
@@ -95,6 +104,7 @@ inductive Act where
   | sSend
   | dProcess (pre : List Bool) (isErr : Bool)   -- `pre`: one non-terminal line each, `true` = contains "T:"
   | dPush (isErr : Bool)                         -- a surplus `ok` (false) / an unsolicited error line (true)
+  | dGreet                                       -- the greeting `Grbl …`
 deriving Repr, DecidableEq
 
 /-- terminal replies still on the wire -/
@@ -109,6 +119,22 @@ def pending (s : St) : Bool := s.printing || !s.clear || !s.priq.isEmpty
 def tx (s : St) (c : Cmd) : St :=
   if s.lost then { s with toDev := s.toDev ++ [c], err := true, ack := true }
   else { s with toDev := s.toDev ++ [c] }
+
+/-- `printcore._reset_line_numbers`: `M110 N-1` is written in line-number mode only -/
+def txReset (s : St) : St := if s.lineNumbers then tx s .reset else s
+
+/-- exactly one command is unanswered and it is a connect probe -/
+def probeFlight (s : St) : Bool :=
+  decide (s.toDev = [.probe] ∧ termOf s.toHost = [])
+  || decide (s.toDev = [] ∧ (termOf s.toHost = [.ok .probe] ∨ termOf s.toHost = [.bad .probe]))
+
+/-- Ghost `backlog`, evaluated as `startprint` runs.  Line-number mode: the `M110` it sends must be the only
+    unanswered command.  Without line numbers nothing is sent and `clear` is raised by the `ok` of the one
+    probe that is still unanswered: two or more unanswered probes are a backlog.  (None at all: nothing will
+    ever raise `clear` and `connect()` never returns - a liveness defect, no backlog.) -/
+def backlogAt (s : St) : Bool :=
+  if s.lineNumbers then !(s.toDev.isEmpty && (termOf s.toHost).isEmpty)
+  else !((s.toDev.isEmpty && (termOf s.toHost).isEmpty) || probeFlight s)
 
 /-- Would a flag-setting line that is nobody's terminal reply do harm right now?  Yes while `connect()`
     awaits a line-number reset (it raises `clear`), and while a `write()` has cleared the acknowledgement
@@ -134,6 +160,11 @@ def hear (s : St) : Reply → St
       else { s with ack := true, online := true, surplusHit := s.surplusHit || surplusNow s }
   | .xbad => { s with ack := true, err := true, anyXbad := true, dueErr := true,
                       surplusHit := s.surplusHit || surplusNow s }
+  | .greet =>
+      -- `_listen`: a greeting raises `clear` (harmful only while `connect()` awaits an acknowledgement);
+      -- `_listen_until_online`: "Grbl" switches line numbers off, the greeting brings printcore online
+      if s.online then { s with clear := true, surplusHit := s.surplusHit || s.cphase == .waitPending }
+      else { s with online := true, lineNumbers := false }
 
 def preLine (t : Bool) : Reply := if t then .temp else .status
 
@@ -153,14 +184,14 @@ def stepLive (s : St) : Act → Option St
   | .cOnline =>
       if s.cphase = .waitOnline ∧ s.online = true then
         if s.err then some { s with err := false, dueErr := false, cphase := .failed }
-        else some (tx { s with printing := true, clear := false, cphase := .waitPending,
-                               backlog := !(s.toDev.isEmpty && (termOf s.toHost).isEmpty) } .reset)
+        else some (txReset { s with printing := true, clear := false, cphase := .waitPending,
+                                    backlog := backlogAt s })
       else none
   | .pSendnext =>
       if s.printing = true ∧ s.clear = true then
         match s.priq with
         | c :: cs => some (tx { s with clear := false, priq := cs } c)
-        | [] => some (tx { s with clear := false, printing := false } .reset)
+        | [] => some (txReset { s with clear := !s.lineNumbers, printing := false })
       else none
   | .cPoll =>
       if s.cphase = .waitPending then
@@ -205,6 +236,8 @@ def stepLive (s : St) : Act → Option St
                         toHost := s.toHost ++ pre.map preLine ++ [if isErr then .bad c else .ok c] }
   | .dPush isErr =>
       if s.lost then none else some { s with toHost := s.toHost ++ [if isErr then .xbad else .xok] }
+  | .dGreet =>
+      if s.lost then none else some { s with toHost := s.toHost ++ [.greet] }
 
 /-- the writer's device object is gone: nothing runs any more -/
 def halted (s : St) : Bool := s.cphase == .failed || s.cphase == .disconnected
